@@ -85,8 +85,12 @@ EQUATIONS = [
     ('pysph.sph.solid_mech.basic', 'MomentumEquationWithStress', {}, False,
      ('au', 'av', 'aw')),
 ]
+# DictBoxSortNNPS has no compiled query (it serves the parallel manager
+# only) and StratifiedSFCNNPS has an open C01 finding for several arrays
 NNPS = ['LinkedListNNPS', 'BoxSortNNPS', 'SpatialHashNNPS',
-        'ExtendedSpatialHashNNPS', 'StratifiedHashNNPS', 'DictBoxSortNNPS']
+        'ExtendedSpatialHashNNPS', 'StratifiedHashNNPS', 'ZOrderNNPS',
+        'ExtendedZOrderNNPS', 'CellIndexingNNPS', 'OctreeNNPS',
+        'CompressedOctreeNNPS']
 KERNELS = ['CubicSpline', 'QuinticSpline', 'WendlandQuintic', 'Gaussian',
            'WendlandQuinticC4', 'WendlandQuinticC6', 'SuperGaussian']
 DENSITY = [('pysph.sph.basic_equations', 'SummationDensity'),
@@ -265,9 +269,7 @@ def get_nnps(s, name):
     from pysph.base import nnps as N
     cls = getattr(N, name)
     kw = dict(dim=s.dim, particles=s.arrays,
-              radius_scale=s.kernel.radius_scale)
-    if name != 'DictBoxSortNNPS':
-        kw['cache'] = False
+              radius_scale=s.kernel.radius_scale, cache=False)
     nn = cls(**kw)
     return nn
 
